@@ -26,6 +26,9 @@ def jdd_case(draw, tier):
     if draw(st.booleans()):
         keys = list(dict.fromkeys(keys + [tuple(draw(st.integers(1, 4)) for _ in range(T))]))
     w = [draw(st.integers(1, 20)) for _ in keys]
+    if draw(st.integers(0, 3)) == 3:
+        # masses spanning many orders of magnitude (a very rare class next to common ones)
+        w = [x * draw(st.sampled_from([1, 1, 10 ** 6, 10 ** 12])) for x in w]
     names = draw(st.lists(st.sampled_from(NAMES), min_size=T, max_size=T, unique=True))
     return {"kind": "jdd", "keys": [list(k) for k in keys], "w": w, "names": names,
             "dict_rot": draw(st.integers(0, 3)), "dict_rev": draw(st.booleans())}
